@@ -826,7 +826,7 @@ func (fr *Frame) appendBuiltin(common *ssa.CallCommon, args []*Val, st *State, p
 	if e.content {
 		e.ctr++
 		i := fmt.Sprintf("ai%d", e.ctr)
-		e.assume(st.pc, fmt.Sprintf("(forall ((%s Int)) (! (= (select %s %s) (ite (< %s (s-len %s)) (select %s (+ (s-off %s) %s)) (select %s (+ %s (- %s (s-len %s)))))) :pattern ((select %s %s))))",
+		e.assume(st.pc, fmt.Sprintf("(forall ((%s Int)) (! (= (select %s %s) (ite (< %s (s-len %s)) (select %s (ix (s-off %s) %s)) (select %s (ix %s (- %s (s-len %s)))))) :pattern ((select %s %s))))",
 			i, newB, i, i, s.T, oldA, s.T, i, srcCont, srcLo, i, s.T, newB, i))
 	}
 	if e.ownerOn() && comp == "A_byte" {
